@@ -257,6 +257,92 @@ func checkLanguageSemantics(id string, p *core.Prog, r *core.Report, fns []*ssa.
 	_ = token.NoPos
 	checkErrorsAsTargets(id, p, r, fns)
 	checkCloseSeenAsResult(id, p, r, fns)
+	checkTimerReuse(id, p, r, fns)
+}
+
+// checkTimerReuse: a time.Timer that is armed again inside a loop (Reset) has no tick left in its channel — the Reset
+// sits on the select arm that received the tick, or a Stop of the same timer comes before it whose false result leads
+// to a receive from the timer's channel (stop-and-drain). Otherwise a tick that fired while another arm was taken is
+// still buffered, and the next wait on the timer returns at once, whatever duration was asked for.
+func checkTimerReuse(id string, p *core.Prog, r *core.Report, fns []*ssa.Function) {
+	ds := core.NewDescriber()
+	isTimer := func(c *ssa.CallCommon, name string) bool {
+		callee := c.StaticCallee()
+		return callee != nil && callee.Name() == name && callee.Pkg != nil && callee.Pkg.Pkg.Path() == "time" && callee.Signature.Recv() != nil && strings.HasSuffix(callee.Signature.Recv().Type().String(), "time.Timer") && len(c.Args) > 0
+	}
+	for _, f := range fns {
+		n := 0
+		core.EachInstr(f, func(in ssa.Instruction) {
+			reset, ok := in.(*ssa.Call)
+			if !ok || !isTimer(&reset.Call, "Reset") || !core.InLoop(reset) {
+				return
+			}
+			n++
+			who := ds.D(reset.Call.Args[0]).String()
+			safe := false
+			// (a) stop-and-drain ahead of it
+			stopped, drained := false, false
+			core.EachInstr(f, func(in2 ssa.Instruction) {
+				switch y := in2.(type) {
+				case *ssa.Call:
+					if isTimer(&y.Call, "Stop") && ds.D(y.Call.Args[0]).String() == who && core.InstrDominates(y, reset) {
+						stopped = true
+					}
+				case *ssa.UnOp:
+					if y.Op == token.ARROW && isTimerDrain(y) {
+						if ld, ok := y.X.(*ssa.UnOp); ok {
+							if fa, ok := ld.X.(*ssa.FieldAddr); ok && ds.D(fa.X).String() == who {
+								drained = true
+							}
+						}
+					}
+				}
+			})
+			if stopped && drained {
+				safe = true
+			}
+			// (b) on the arm that took the tick
+			if !safe {
+				core.EachInstr(f, func(in2 ssa.Instruction) {
+					sel, ok := in2.(*ssa.Select)
+					if !ok {
+						return
+					}
+					arm := -1
+					for k, st := range sel.States {
+						if ld, ok := st.Chan.(*ssa.UnOp); ok && ld.Op == token.MUL {
+							if fa, ok := ld.X.(*ssa.FieldAddr); ok && ds.D(fa.X).String() == who {
+								arm = k
+							}
+						}
+					}
+					idx := core.ExtractOf(sel, 0)
+					if arm < 0 || idx == nil || idx.Referrers() == nil {
+						return
+					}
+					for _, ref := range *idx.Referrers() {
+						b, ok := ref.(*ssa.BinOp)
+						if !ok || b.Op != token.EQL || !core.IsIntConst(b.Y, int64(arm)) || b.Referrers() == nil {
+							continue
+						}
+						for _, br := range *b.Referrers() {
+							iff, ok := br.(*ssa.If)
+							if !ok {
+								continue
+							}
+							t := iff.Block().Succs[0]
+							if len(t.Preds) == 1 && (t == reset.Block() || t.Dominates(reset.Block())) {
+								safe = true
+							}
+						}
+					}
+				})
+			}
+			if !safe {
+				r.Violate(id+".x", fmt.Sprintf("%s|timer-armed-again-without-drain#%d", core.FnKey(f), n), p.Pos(reset.Pos()), "the timer "+who+" is armed again inside a loop without a stop-and-drain before it (and not on the arm that took its tick): a tick that fired while another arm of the select was taken is still in the channel, so the next wait returns at once instead of after the duration asked for")
+			}
+		})
+	}
 }
 
 // checkCloseSeenAsResult: a channel of results (pointers, interfaces) that a goroutine closes — "everybody has
@@ -341,6 +427,12 @@ func checkCloseSeenAsResult(id string, p *core.Prog, r *core.Report, fns []*ssa.
 					core.EachInstr(h, func(x ssa.Instruction) {
 						switch y := x.(type) {
 						case *ssa.UnOp:
+							if y.Op == token.ARROW && y.CommaOk && chanOf(y.X) == mk {
+								if at := zeroValueUsedWhenClosed(y, core.ExtractOf(y, 1), core.ExtractOf(y, 0)); at != nil {
+									n++
+									r.Violate(id+".x", fmt.Sprintf("%s|close-seen-as-result#%d", core.FnKey(h), n), p.Pos(at.Pos()), "the receive looks at its `ok`, but the path on which the channel was found closed (by the goroutine at "+p.Pos(in.Pos())+", once every sender has finished) goes on to use the received value here: it is nil, and is handed on as if it were a result")
+								}
+							}
 							if y.Op == token.ARROW && !y.CommaOk && chanOf(y.X) == mk {
 								n++
 								r.Violate(id+".x", fmt.Sprintf("%s|close-seen-as-result#%d", core.FnKey(h), n), p.Pos(y.Pos()), "this receive takes whatever arrives for a result, but the channel is closed by the goroutine at "+p.Pos(in.Pos())+" once every sender has finished: the receive then yields nil, which is dereferenced as if it were a result")
@@ -360,6 +452,21 @@ func checkCloseSeenAsResult(id string, p *core.Prog, r *core.Report, fns []*ssa.
 									if !okUsed {
 										n++
 										r.Violate(id+".x", fmt.Sprintf("%s|close-seen-as-result#%d", core.FnKey(h), n), p.Pos(st.Pos), "this select arm takes whatever arrives for a result, but the channel is closed by the goroutine at "+p.Pos(in.Pos())+" once every sender has finished: the arm then fires with nil, which is dereferenced as if it were a result")
+									} else {
+										// the flag is looked at — but does the not-ok edge still lead to a use of the received value?
+										k := 0
+										for _, st2 := range y.States {
+											if st2 == st {
+												break
+											}
+											if st2.Dir == types.RecvOnly {
+												k++
+											}
+										}
+										if at := zeroValueUsedWhenClosed(y, core.ExtractOf(y, 1), core.ExtractOf(y, 2+k)); at != nil {
+											n++
+											r.Violate(id+".x", fmt.Sprintf("%s|close-seen-as-result#%d", core.FnKey(h), n), p.Pos(at.Pos()), "the select arm looks at the `ok` of its receive, but the path on which the channel was found closed (by the goroutine at "+p.Pos(in.Pos())+", once every sender has finished) goes on to use the received value here: it is nil, and is handed on as if it were a result")
+										}
 									}
 								}
 							}
@@ -652,4 +759,62 @@ func appendedFromAfter(f *ssa.Function, root ssa.Value, stopAt ssa.Value, after 
 		}
 	})
 	return found
+}
+
+// zeroValueUsedWhenClosed: on an edge where the `ok` of the receive recv is false, an instruction that uses the
+// received value can be reached without passing the receive again. Returns that instruction (nil if there is none,
+// or if ok/value are not both extracted).
+func zeroValueUsedWhenClosed(recv ssa.Instruction, okv, val ssa.Value) ssa.Instruction {
+	if okv == nil || val == nil || okv.Referrers() == nil || val.Referrers() == nil {
+		return nil
+	}
+	for _, ref := range *okv.Referrers() {
+		iff, ok := ref.(*ssa.If)
+		if !ok || len(iff.Block().Succs) != 2 {
+			continue
+		}
+		notOK, isOK := iff.Block().Succs[1], iff.Block().Succs[0]
+		if notOK == isOK {
+			continue
+		}
+		seen := map[*ssa.BasicBlock]bool{}
+		stack := []*ssa.BasicBlock{notOK}
+		for len(stack) > 0 {
+			b := stack[len(stack)-1]
+			stack = stack[:len(stack)-1]
+			if seen[b] || b == recv.Block() {
+				continue
+			}
+			seen[b] = true
+			stack = append(stack, b.Succs...)
+		}
+		var hit ssa.Instruction
+		for _, u := range *val.Referrers() {
+			if _, isDbg := u.(*ssa.DebugRef); isDbg || !seen[u.Block()] {
+				continue
+			}
+			if phi, isPhi := u.(*ssa.Phi); isPhi {
+				carries := false
+				for i, e := range phi.Edges {
+					if e != val || i >= len(phi.Block().Preds) {
+						continue
+					}
+					pred := phi.Block().Preds[i]
+					if seen[pred] || (pred == iff.Block() && phi.Block() == notOK) {
+						carries = true
+					}
+				}
+				if !carries {
+					continue
+				}
+			}
+			if hit == nil || u.Pos() < hit.Pos() {
+				hit = u
+			}
+		}
+		if hit != nil {
+			return hit
+		}
+	}
+	return nil
 }
